@@ -15,6 +15,8 @@ outputs:
 * an end never has more unacknowledged segments in flight than the negotiated window;
 * when an acknowledgement is pending and the deadline has passed, `is_ack_due` answers yes and the
   pump emits it (if the send window has room);
+* the connection idle timeout (`Btp::timeout`) is compared with the model's `isTimedOut` and may fire
+  only while a segment is awaiting an acknowledgement;
 * kind `l` (two well-behaved ends): no operation fails, and the messages fetched at one end are a
   prefix of the messages accepted for sending at the other end.
 -/
@@ -335,6 +337,15 @@ def step (st : St) (line : String) : St × String :=
         let d := e.s.isAckDue st.link.now ackTimeoutSecs
         let mo := if d then "1" else "0"
         let why := if ackOverdue g st.now && res = "0" then some "acknowledgement pending past the deadline but is_ack_due = false" else none
+        (st, verdict (wb why false) mo out)
+      | "tmo", [] =>
+        -- `Btp::timeout()`: the connection idle timeout (`Session::is_timed_out`, 30 s)
+        let d := e.s.isTimedOut st.link.now connIdleTimeoutSecs
+        let mo := if d then "1" else "0"
+        -- specification: the session may only be declared dead while one of our segments is
+        -- still awaiting an acknowledgement
+        let why := if res = "1" && g.hasWindow && g.view.outstanding == 0 then
+            some "the idle timeout fired although no segment is awaiting an acknowledgement" else none
         (st, verdict (wb why false) mo out)
       | _, _ => (st, "BAD op")
   | _ => (st, "BAD line")
